@@ -128,6 +128,17 @@ type caseCtx struct {
 func (c *caseCtx) compare(t *rapid.T, live state, metaPath, scratch string, doSync bool) {
 	w := c.w
 	want := modelState(w.M)
+	for ci := 0; ci < w.Cat.NC; ci++ {
+		// recorded finding 1 followed: a mark on an absent ID is counted in the GC counter
+		// while it exists (number = max(0, phy-gc)); it must vanish with the mark
+		if n := uint64(w.Phantoms(ci)); n > 0 && !has(w.M.RemovedContainers(), ci) {
+			if want.Info[ci].ObjectsNumber > n {
+				want.Info[ci].ObjectsNumber -= n
+			} else {
+				want.Info[ci].ObjectsNumber = 0
+			}
+		}
+	}
 	fail := func(f string, a ...any) {
 		t.Fatalf("%s\n  metabase: %s\n  recount : %s\nepoch %d, history:\n  %s", fmt.Sprintf(f, a...), live, want, w.Epoch, w.History())
 	}
@@ -167,6 +178,15 @@ func (c *caseCtx) compare(t *rapid.T, live state, metaPath, scratch string, doSy
 				ci, before.Info[ci].ObjectsNumber, before.Info[ci].StorageSize, after.Info[ci].ObjectsNumber, after.Info[ci].StorageSize)
 		}
 	}
+}
+
+func has(s []int, x int) bool {
+	for _, v := range s {
+		if v == x {
+			return true
+		}
+	}
+	return false
 }
 
 func nontrivial(w *drv.World) bool {
